@@ -190,8 +190,26 @@ def tok_proto(tk):
     return tk
 
 
-BOUNDS = [0, 1, 2, 3, 7, 10, 63, 64, 2147483647, 2147483648, 4294967295, 4294967296, 9223372036854775807,
-          9223372036854775808, 18446744073709551615]
+BOUNDS = [0, 1, 2, 3, 7, 10, 63, 64, 2147483647, 2147483648, 4294967295, 4294967296, 9007199254740993,
+          1000000000000000007, 9223372036854775807, 9223372036854775808, 18446744073709551615]
+WIDE = [(1 << 53) + 1, 9007199254740993, (1 << 62) + 1, (1 << 63) - 1, (1 << 63) - 25, 10 ** 18 + 7, 999999999999999989,
+        1234567890123456789, 4611686018427387847, 0x7fffffff00000001]
+
+
+def gen_wide(rng, op):
+    """one binary operator with operands beyond 2^53 (a detour through double precision shows)"""
+    a = N(rng.choice(WIDE), False, rng.random() < 0.7)
+    if rng.random() < 0.3:
+        a = U("neg", a)
+    if op in ("shl", "shr"):
+        b = N(rng.choice([0, 1, 3, 9, 31, 52, 53, 62, 63]))
+    elif op in ("div", "mod") and rng.random() < 0.6:
+        b = N(rng.choice([2, 3, 4, 7, 10, 1000, 65537, 1000003]))
+        if rng.random() < 0.25:
+            b = U("neg", b)
+    else:
+        b = N(rng.choice(WIDE))
+    return B(op, a, b)
 
 
 def gen_tree(rng, depth, unsigned_p=0.25):
@@ -259,6 +277,10 @@ CORPUS = [
     B("bor", B("band", N(6), N(3)), B("bxor", N(8), N(1))), B("lor", B("land", N(1), N(0)), N(1)),
     B("shl", N(1), N(62)), B("lt", B("shl", N(1), N(63)), N(0)), B("gt", N(9223372036854775808, False, False), N(0)),
     B("add", N(9223372036854775807), N(1)), U("plus", U("neg", U("plus", N(3)))), U("neg", U("neg", N(3))),
+    # operands beyond 2^53
+    B("eq", B("mod", N(9223372036854775807), N(10)), N(7)), B("eq", B("mod", N(9007199254740993), N(4)), N(1)),
+    B("eq", B("div", N(9223372036854775807), N(3)), N(3074457345618258602)),
+    B("mod", U("neg", N(9223372036854775807)), N(1000003)), B("lt", N(9007199254740992), N(9007199254740993)),
 ]
 
 EXTRA_TEXT = [  # lexer / defined / macro-in-#if / #elif corner cases: (text, expected branch from gcc)
@@ -390,6 +412,9 @@ def check(ctx):
     trees = list(CORPUS)
     for _ in range(1500 if ctx.thorough else 250):
         trees.append(gen_tree(rng, rng.randint(1, 5 if ctx.thorough else 4), rng.choice([0.0, 0.0, 0.25])))
+    for op in BINOPS:
+        for _ in range(12 if ctx.thorough else 3):
+            trees.append(gen_wide(rng, op))
     # specification values first (needed for the probes)
     spec0 = ctx.driver("C26", ["spec " + proto_tree(t) for t in trees])
     cases = []                                            # (tree, token list)
@@ -526,6 +551,12 @@ MACRO_CORPUS = [
     ("stringify-expanded", "#define STR(x) #x\n#define XSTR(x) STR(x)\n#define V 42\nconst char *a = STR(V), *b = XSTR(V);\n"),
     ("empty-expansion-arg", "#define F \n#define H(a) a\nint r = H(F);\n"),            # fixed 9088520
     ("empty-expansion-arg2", "#define E\n#define F(a) [a]\nint x = F(E) F(E E) E;\n"),
+    # the same parameter used plainly and under # / ##, both orders; the argument is an object-like macro
+    ("mixed-plain-then-str", "#define M 5\n#define SHOW(x) x #x\nint r = SHOW(M);\n"),
+    ("mixed-str-then-plain", "#define M 5\n#define SHOW(x) #x x\nint r = SHOW(M);\n"),
+    ("mixed-plain-then-paste", "#define M 5\n#define BOTH(x) x x ## _t\nint r = BOTH(M);\n"),
+    ("mixed-paste-then-plain", "#define M 5\n#define BOTH(x) k_ ## x x #x x\nint r = BOTH(M);\n"),
+    ("mixed-chain", "#define M 5\n#define W M\n#define T(x) x #x x ## _t x\nint r = T(W) | T(M) | T(z);\n"),
     # hand-offs: a function-like macro name at the end of a replacement list, arguments from the following text
     ("handoff", "#define A f\n#define f(x) x A\nint r = A(1);\n"),
     ("handoff-twice", "#define A f\n#define f(x) x A\nint r = A(1)(2);\n"),
@@ -627,6 +658,27 @@ def gen_macro_set(rng, family="general"):
     return "\n".join(defs) + "\nint r = " + " | ".join(uses) + ";\n"
 
 
+def gen_mixed_use(rng):
+    """family "mixed-use": function-like macros whose body uses the SAME parameter plainly and as an operand of `#` /
+    `##`, in both orders; arguments are single tokens, some of them object-like macros (no cycles, no empty
+    arguments, nothing that stringify spacing could change)"""
+    objs = {"M": "5", "N": "7", "P": "q", "W": "M"}               # W -> M -> 5: a chain, no cycle
+    defs = [f"#define {k} {v}" for k, v in objs.items()]
+    uses = []
+    for nm in rng.sample(["S1", "S2", "S3", "S4"], rng.randint(2, 4)):
+        parts = []
+        for _ in range(rng.randint(2, 4)):
+            parts.append(rng.choice(["x", "#x", "x ## _t", "k_ ## x", "x", "#x", "+", "1"]))
+        if not any(p_ == "x" for p_ in parts):
+            parts.insert(rng.randrange(len(parts) + 1), "x")      # at least one plain use …
+        if not any("#" in p_ for p_ in parts):
+            parts.insert(rng.randrange(len(parts) + 1), rng.choice(["#x", "x ## _t"]))    # … and one under # / ##
+        defs.append(f"#define {nm}(x) " + " ".join(parts))
+        for _ in range(rng.randint(1, 2)):
+            uses.append(f"{nm}({rng.choice(list(objs) + ['z', 'y2'])})")
+    return "\n".join(defs) + "\nint r = " + " | ".join(uses) + ";\n"
+
+
 def _norm_strings(toks):
     return [re.sub(r"\s+", "", t) if t.startswith('"') else t for t in toks]
 
@@ -688,6 +740,10 @@ def classify_macro(src, st, pout, got, want, family="general"):
         if st != "ok":
             return "macro:fn-name-at-end-of-replacement:" + st
         return "macro:fn-name-at-end-of-replacement:expansion-differs"
+    if family == "mixed-use":
+        if st != "ok":
+            return "macro:param-plain-then-stringify/paste:" + st
+        return "macro:param-plain-then-stringify/paste:expansion-differs"
     if st == "diag":
         m = re.search(r'Invalidly glued "([^"]*)"', pout)
         if m and re.fullmatch(r"\d\w*", m.group(1)):
@@ -718,7 +774,7 @@ def classify_macro(src, st, pout, got, want, family="general"):
     return "macro:expansion-differs:" + d
 
 
-MACRO_NAMES = ["A", "B", "C", "F", "G", "H", "N", "V", "X", "ADD", "PLUS", "STR", "XSTR", "CAT", "XCAT", "foo", "f", "g", "h", "m", "w", "t", "p", "q", "r", "x", "z",
+MACRO_NAMES = ["A", "B", "C", "F", "G", "H", "N", "V", "X", "ADD", "PLUS", "STR", "XSTR", "CAT", "XCAT", "foo", "f", "g", "h", "M", "P", "W", "S1", "S2", "S3", "S4", "SHOW", "BOTH", "T", "m", "w", "t", "p", "q", "r", "x", "z",
                "str", "xstr", "debug", "glue", "xglue", "HIGHLOW", "LOW", "showlist", "report", "E"]
 
 
@@ -759,11 +815,14 @@ def gcc_pp_many(srcs):
 
 
 def macro_search(ctx):
-    cases = [(k, s, "handoff" if k.startswith("handoff") else "general") for k, s in MACRO_CORPUS]
+    cases = [(k, s, "handoff" if k.startswith("handoff") else "mixed-use" if k.startswith("mixed") else "general")
+             for k, s in MACRO_CORPUS]
     n = 400 if ctx.thorough else 60
     for i in range(n):
         fam = "handoff" if i % 2 else "general"
         cases.append(("gen-" + fam, gen_macro_set(ctx.rng, fam), fam))
+    for i in range(n // 3):
+        cases.append(("gen-mixed-use", gen_mixed_use(ctx.rng), "mixed-use"))
     gouts = gcc_pp_many([s for _, s, _ in cases])
     if gouts is None:                      # a marker got lost: fall back to one run per set
         gouts = []
